@@ -42,6 +42,7 @@ def run(ck, tier):
     ck.rule("R-C12-stale", "a condensation in one paragraph must not shift the token indices used for a condensation in a later one: indices collected before an earlier removal are re-based by exactly the tokens it removes (rule instances of R-C02-stale)")
     ck.rule("R-C12-lexlocal", "token boundaries are decided from the front: no function in lex_token's table (nor a helper that receives the uncut remaining input) scans that input from its end (rev / rposition / rfind / last / ends_with / next_back ...); otherwise text arbitrarily far behind a token - in a later paragraph - changes how it is lexed")
     ck.rule("R-C12-lookahead", "a lexer looks ahead only as far as its own line: a forward search over the uncut remaining input (position / find / any, take_while / skip_while / all) ends at a line break at the latest - its predicate is decided by the character '\\n' - or the function gives up (returns None) when the search fails; a search that runs to the end of the text and merely takes another branch when nothing is found lets a character in a later paragraph decide how this token is lexed")
+    ck.rule("R-C12-stable", "lints are only ever sorted with a stable sort: several rules report the same span with different messages (the sub-rules of a merged rule), so lints tie on every span-based key; an unstable sort orders ties by the length and contents of the whole vector, and which twin survives remove_overlaps in one paragraph then depends on how many lints the other paragraphs have")
     ck.rule("R-C12-window", "a hand-written rule that slides a window of several tokens over the whole document (not inside a chunk, sentence or paragraph) requires every token of the window to be of a particular kind before it reports: a window position that is only tested negatively, or not at all, can be the break that closes the previous paragraph - and does not exist at the start of the document - so the paragraph's lints depend on whether something precedes it")
     ck.rule("R-C12-carry", "a hand-written rule that walks the document unit by unit (iter_sentences / iter_paragraphs / iter_chunks) carries nothing from one unit to the next except its result vector: a local that is set in one iteration and decides something in the next makes a paragraph's lints depend on the paragraphs before it (and treats the first unit of the document differently from the first unit of every later paragraph)")
     ck.not_decided += ["whether each of the 24 hand-written rule structs ignores everything beyond a paragraph break (they read neighbouring tokens by index)", "document-level passes other than the condensing ones", "quote pairing (excluded by the property's premise)"]
@@ -143,6 +144,7 @@ def run(ck, tier):
         ck.floor(rule, "pattern calls in run_on_chunk", n, 2)
     match_to_lint_locality(ck, p, rule)
     _lexlocal(ck, p, byk)
+    stable_lint_sorts(ck, p, "R-C12-stable")
     _carry(ck, p)
     _windows(ck, p)
     # shared rule instances
@@ -566,3 +568,31 @@ def _derives_local(f, pv, op, local, depth=0):
             if src and (src[0] == local or _derives_local(f, pv, {"c": [src[0]]}, local, depth + 1)):
                 return True
     return False
+
+
+# ---------------------------------------------------------------------------------------------------
+def stable_lint_sorts(ck, p, rule):
+    n = 0
+    bad = []
+    for f in sorted(p.fns.values(), key=lambda g: g.name):
+        if not f.name.startswith("harper_"):
+            continue
+        for bi, t in f.calls():
+            m = method(t)
+            if not m.startswith("sort") or not t["args"]:
+                continue
+            pl = place_of(t["args"][0])
+            ty = f.local_tystr(pl[0]) if pl else ""
+            if "Lint" not in ty or "LintKind" in ty.replace("Lint>", "").replace("Lint]", "") and "lint::Lint" not in ty:
+                continue
+            if not re.search(r"(^|[\[<\s:])Lint[\]>]", ty) and "lint::Lint" not in ty:
+                continue
+            n += 1
+            if m.startswith("sort_unstable"):
+                bad.append((f, t, m))
+    ck.floor(rule, "sorts of lint vectors in the workspace", n, 1)
+    for f, t, m in bad:
+        ck.saw(f)
+        ck.refuted(rule, "%s:%s" % (keyname(p, f), m), f.loc(t["ln"]), "%s on a vector of lints: lints of different sub-rules tie on span-based keys (same span, different message), and an unstable sort arranges ties according to the length and contents of the whole vector - which of two tied lints is kept for one paragraph depends on the lints of all the others" % m)
+    if not bad:
+        ck.proved(rule, "lint-sorts", "", "%d sorts of lint vectors, all stable (sort / sort_by / sort_by_key)" % n)
